@@ -20,7 +20,7 @@ AXIOM_WHITELIST = {
 
 TRUSTED_BASE = [
     "Coq 8.16.1 kernel (coqc, full .vo build; vm_compute for finite table lemmas; no native_compute)",
-    "tools/gen.py + gen_more.py + gen_loops.py + gen_codec.py + gen_upscale.py + gen_core.py + gen_seg.py + gen_heap.py + gen_ihu.py: fail-closed ast translators of tables/constants/formulas, of 21 loop kernels (accuflux, accuflux_ds, main_upstream, upstream_count, upstream_sum, fillnodata_upstream, fillnodata_downstream, stream_order, strahler_order, height_above_nearest_drain, stream_distance, ucat_area, subbasins_area, subbasins_streamorder, floodplains, pit_indices, flwdir_tuples, inflow_idxs, outflow_idxs, headwater_indices, confluence_indices) of the six raster codecs (from_array / to_array of D8, LDD, NEXTXY; gen_codec.py) of the ten non-iterative upscaling kernels (gen_upscale.py) and of eight while-loop kernels of core.py (rank, loop_indices, upstream_matrix, idxs_seq, _trace, path, snap, _window; gen_core.py), of streams / segment_* / ucat_volume / Pfafstetter (gen_seg.py) and of fill_depressions / spread2d / get_edge (gen_heap.py) and of the iterative stages of upscale.ihu except ihu_relocate_outlets (gen_ihu.py) into coq/generated; the regenerated definitions are proved equal to the hand models (Gen*Eq.v); narrow integer element types are rendered as Z (wrap-around not modelled)",
+    "tools/gen.py + gen_more.py + gen_loops.py + gen_codec.py + gen_upscale.py + gen_core.py + gen_seg.py + gen_heap.py + gen_ihu.py: fail-closed ast translators of tables/constants/formulas, of 21 loop kernels (accuflux, accuflux_ds, main_upstream, upstream_count, upstream_sum, fillnodata_upstream, fillnodata_downstream, stream_order, strahler_order, height_above_nearest_drain, stream_distance, ucat_area, subbasins_area, subbasins_streamorder, floodplains, pit_indices, flwdir_tuples, inflow_idxs, outflow_idxs, headwater_indices, confluence_indices) of the six raster codecs (from_array / to_array of D8, LDD, NEXTXY; gen_codec.py) of the ten non-iterative upscaling kernels (gen_upscale.py) and of eight while-loop kernels of core.py (rank, loop_indices, upstream_matrix, idxs_seq, _trace, path, snap, _window; gen_core.py), of streams / segment_* / ucat_volume / Pfafstetter (gen_seg.py) and of fill_depressions / spread2d / get_edge (gen_heap.py) and of the iterative stages of upscale.ihu (gen_ihu.py) into coq/generated; the regenerated definitions are proved equal to the hand models (Gen*Eq.v); narrow integer element types are rendered as Z (wrap-around not modelled)",
     "extraction (ExtrOcamlBasic only, no Extract Constant of our own) + ocaml/driver.ml integer conversion",
     "tools/*.py correspondence harness: calls the implementation and canonicalises outputs",
     "all other kernel loop bodies are modelled by hand and tied by correspondence, not translated from source",
